@@ -436,9 +436,16 @@ impl World {
     fn open(&mut self, path: &Path, me: &Rc<RefCell<World>>) -> io::Result<Box<dyn Read>> {
         // A relative path names a file in the directory the process is in.
         let resolved: std::borrow::Cow<Path> = match (&self.cwd, path.is_relative()) {
-            (Some(c), true) => {
-                let dir = if c.away { &c.elsewhere } else { &c.home };
-                let mut abs = dir.clone();
+            (Some(c), _) => {
+                // The way the kernel walks a path: component by component, following the one
+                // symbolic link of this little world (`home/link` -> `elsewhere/deep`), so that
+                // `..` after it is the parent of the link's TARGET.
+                let mut abs = if path.is_relative() {
+                    if c.away { c.elsewhere.clone() } else { c.home.clone() }
+                } else {
+                    PathBuf::new()
+                };
+                let link = c.home.join("link");
                 for comp in path.components() {
                     match comp {
                         std::path::Component::CurDir => {}
@@ -446,6 +453,9 @@ impl World {
                             abs.pop();
                         }
                         other => abs.push(other.as_os_str()),
+                    }
+                    if abs == link {
+                        abs = c.elsewhere.join("deep");
                     }
                 }
                 std::borrow::Cow::Owned(abs)
@@ -984,10 +994,17 @@ impl Sim {
             let name = path.file_name().unwrap().to_os_string();
             let decoy = sc.decoy % ctx.images.len();
             let setup = (|| -> io::Result<()> {
-                std::fs::create_dir_all(&elsewhere)?;
+                std::fs::create_dir_all(elsewhere.join("deep"))?;
+                std::fs::create_dir_all(home.join("sub"))?;
+                if std::fs::symlink_metadata(home.join("link")).is_err() {
+                    std::os::unix::fs::symlink(elsewhere.join("deep"), home.join("link"))?;
+                }
                 // one decoy file per worker directory is enough: runs do not overlap there
                 for old in std::fs::read_dir(&elsewhere)? {
-                    let _ = std::fs::remove_file(old?.path());
+                    let old = old?.path();
+                    if !old.is_dir() {
+                        let _ = std::fs::remove_file(old);
+                    }
                 }
                 let pool_dir = self.world.borrow().real.as_ref().unwrap().pool_dir.clone();
                 std::os::unix::fs::symlink(RealDisk::pool_file(&pool_dir, decoy), elsewhere.join(&name))?;
@@ -1157,6 +1174,7 @@ impl Sim {
                                             client: 0,
                                             plan: t.plan.clone(),
                                             must_succeed: false,
+                                            spelling: 0,
                                         },
                                         Op::Query {
                                             client: 0,
@@ -1257,8 +1275,28 @@ impl Sim {
                         ));
                     }
                 }
-                Op::Load { client, plan, must_succeed } => {
+                Op::Load { client, plan, must_succeed, spelling } => {
                     let c = *client % clients.len();
+                    // How the client spells the path, and which file that spelling names.
+                    let (path, named_decoy) = {
+                        let w = self.world.borrow();
+                        match &w.cwd {
+                            None => (path.clone(), false),
+                            Some(cw) => {
+                                let name = w.sim_path.file_name().unwrap();
+                                let sp = if cw.away && matches!(*spelling, 2 | 3) { 0 } else { *spelling };
+                                match sp {
+                                    1 => (Path::new(".").join(name), cw.away),
+                                    2 => (Path::new("sub").join("..").join(name), false),
+                                    3 => (Path::new("link").join("..").join(name), true),
+                                    4 => (cw.home.join(name), false),
+                                    5 => (cw.home.join("link").join("..").join(name), true),
+                                    _ => (PathBuf::from(name), cw.away),
+                                }
+                            }
+                        }
+                    };
+                    let path = &path;
                     let plan = if self.bypass {
                         Plan::default()
                     } else if *must_succeed {
@@ -1302,7 +1340,7 @@ impl Sim {
                             persistent: None,
                             opens: 0,
                             bound: Vec::new(),
-                            named_decoy: w.cwd.as_ref().map(|c| c.away).unwrap_or(false),
+                            named_decoy,
                             bound_other: Vec::new(),
                             reads: 0,
                             budget,
@@ -1313,7 +1351,7 @@ impl Sim {
                         (w.cur(), budget)
                     };
                     let gen_start = self.world.borrow().shared.as_ref().map(|s| s.generation());
-                    let r = catch_unwind(AssertUnwindSafe(|| LeapSecondsFile::from_path(&path)));
+                    let r = catch_unwind(AssertUnwindSafe(|| LeapSecondsFile::from_path(path)));
                     let (a, image_at_end) = {
                         let mut w = self.world.borrow_mut();
                         let a = w.armed.take().expect("armed plan vanished");
